@@ -231,7 +231,10 @@ func (_this NodeValueDecorator) AfterValue(ctx *EncoderContext) {
 }
 func (_this NodeValueDecorator) BeforeComment(ctx *EncoderContext) {}
 func (_this NodeValueDecorator) AfterComment(ctx *EncoderContext) {
-	ctx.WriteReturnToOrigin()
+	// Always break the line: a nested node can put the cursor at the origin
+	// column without being at the start of a line, and whatever follows a line
+	// comment on the same line would become part of the comment.
+	ctx.WriteNewlineAndOrigin()
 }
 func (_this NodeValueDecorator) EndContainer(ctx *EncoderContext) { errorBadEvent(_this, "End") }
 
